@@ -129,3 +129,63 @@ Example c11_example_leaf :
   const_div_model true 7 0 = None /\ const_div_model false (-7) 2 = Some (-1) /\
   pos_in_source [10; 0; 5] 3 6 = true /\ pos_in_source [10; 0; 5] 3 7 = false /\ pos_in_source [10; 0; 5] 4 1 = false.
 Proof. vm_compute. repeat split; reflexivity. Qed.
+
+(* ---- parser part (coq/Parse/ParserDiag.v over the model of parser.go; fragment of Parse/ParserPrint.v:
+   identifiers, literals, operators, calls, indexing, member access, parentheses).
+   `_partial`: stated for these two productions of the modelled grammar, not for every production; the
+   general statement (every missing closer in every production) is covered by the edit enumeration of checks/c11.py. *)
+Require Import Naga.Parse.Ast Naga.Parse.ParserModel Naga.Parse.ParserProofs Naga.Parse.ParserPrint Naga.Parse.ParserDiag.
+Open Scope string_scope.
+Open Scope list_scope.
+
+(* `( e` followed by a token that can neither continue e nor close the parenthesis: error "expected )" at THAT token *)
+Theorem c11_missing_close_paren_is_error_partial : forall N er e ts rest lp,
+  prints 0 e ts -> follow 0 rest -> tkind lp = TkLeftParen ->
+  tk_eqb (hd_kind rest) TkRightParen = false ->
+  (List.length (lp :: ts ++ rest) <= N)%nat ->
+  expression (st N er false (lp :: ts ++ rest)) =
+    Err (PErr (EExpected TkRightParen) (N - List.length rest)) (st N er false rest).
+Proof. exact missing_close_paren_is_error. Qed.
+Print Assumptions c11_missing_close_paren_is_error_partial.
+
+(* `let x = e` followed by a token that can neither continue e nor end the statement: error "expected ;" at THAT token *)
+Theorem c11_missing_semicolon_is_error_partial : forall N er e ts rest lett x eq,
+  tkind lett = TkLet -> is_ident x = true -> tkind eq = TkEqual ->
+  prints 0 e ts -> follow 0 rest -> tk_eqb (hd_kind rest) TkSemicolon = false ->
+  (List.length (lett :: x :: eq :: ts ++ rest) <= N)%nat ->
+  statement (st N er false (lett :: x :: eq :: ts ++ rest)) =
+    Err (PErr (EExpected TkSemicolon) (N - List.length rest)) (st N er false rest).
+Proof. exact missing_semicolon_is_error. Qed.
+Print Assumptions c11_missing_semicolon_is_error_partial.
+
+(* every error of every sub-parser points at the token that is current when it fails, never before its start *)
+Theorem c11_parse_error_not_before_start :
+  progresses expression /\ progresses typeSpec /\ progresses statement /\ progresses block /\ progresses declaration.
+Proof. exact parse_progress. Qed.
+Print Assumptions c11_parse_error_not_before_start.
+
+(* REFUTED on the faithful model (and on naga: replayed by checks/c11.py): three classes of malformed text are accepted *)
+Definition is_template_closer (k : tk) : bool :=
+  tk_eqb k TkGreater || tk_eqb k TkGreaterGreater || tk_eqb k TkGreaterEqual || tk_eqb k TkGreaterGreaterEqual.
+
+(* a template list `<` that is never closed:  var x : vec3 < f32 = 1 ; *)
+Theorem c11_unclosed_template_list_refuted : exists ts ds,
+  parse ts = Parsed ds [] /\
+  existsb (fun t => tk_eqb (tkind t) TkLess) ts = true /\ existsb (fun t => is_template_closer (tkind t)) ts = false.
+Proof. exists w_unclosed_template. eexists. split; [exact unclosed_template_accepted|split; reflexivity]. Qed.
+Print Assumptions c11_unclosed_template_list_refuted.
+
+(* a malformed attribute argument is dropped:  `@workgroup_size(8, 4 STAR ) fn main() {}` (STAR = the token `*`) parses like @workgroup_size(8) *)
+Theorem c11_malformed_attribute_argument_refuted : exists ts,
+  parse ts = Parsed [DFunction "main" [] None [] [mkattr "workgroup_size" [ELit TkIntLiteral "8"]] []] [] /\
+  existsb (fun t => tk_eqb (tkind t) TkStar) ts = true.
+Proof. exists w_attr_arg_dropped. split; [exact attr_arg_dropped_accepted|reflexivity]. Qed.
+Print Assumptions c11_malformed_attribute_argument_refuted.
+
+(* call arguments after an expression that is neither a name nor a type are parsed and dropped:
+   fn f() { a[0](1, nosuch); }  parses like  fn f() { a[0]; }  (the undeclared `nosuch` is never seen again) *)
+Theorem c11_call_arguments_dropped_refuted : exists ts,
+  parse ts = Parsed [DFunction "f" [] None [] [] [SExpr (EIndex (EIdent "a") (ELit TkIntLiteral "0"))]] [] /\
+  existsb (fun t => String.eqb (tlex t) "nosuch") ts = true.
+Proof. exists w_call_args_dropped. split; [exact call_args_dropped_accepted|reflexivity]. Qed.
+Print Assumptions c11_call_arguments_dropped_refuted.
